@@ -234,7 +234,8 @@ type result struct {
 	what     string
 	kind     string
 	finalKey string // canonical model state after the history (strict model)
-	changed  bool   // some step changed the model state
+	snap     *statefp.Snap
+	changed  bool // some step changed the model state
 	evicted  bool
 }
 
@@ -312,9 +313,11 @@ func runHistory(cf conf, ops []op) (res result) {
 	// The implementation's own state is part of the search key, so that a
 	// history whose hidden state (list order, sizes, stale fields) differs
 	// from the one that reached this model state first is explored further.
-	// The counters are unbounded and the model key keeps their zero-ness.
-	if pv, _ := runlib.Try(func() { res.finalKey += "|" + statefp.Of(real.c, "hit", "miss", "lock") }); pv != nil {
-		res.finalKey += "|<fingerprint panicked>"
+	// The hit / miss counters are unbounded and the model key keeps their
+	// zero-ness; other fields that never repeat (should the implementation
+	// grow some) are found and left out by the Keyer of the search.
+	if pv, _ := runlib.Try(func() { res.snap = statefp.Snapshot(real.c, "hit", "miss", "lock") }); pv != nil {
+		res.snap = statefp.Snapshot("<fingerprint panicked>")
 	}
 
 	return res
@@ -422,6 +425,7 @@ func main() {
 		}
 
 		alpha := alphabet()
+		keyer := statefp.NewKeyer()
 		depth := runlib.Pick(c, 3, 4)
 		all := confs(!c.Quick())
 		c.Count("configurations", 0)
@@ -487,37 +491,73 @@ func main() {
 				continue
 			}
 
-			seen := map[string]bool{}
-			first := runHistory(cf, nil)
-			seen[first.finalKey] = true
-			frontier := [][]op{nil}
-			var states, transitions int64 = 1, 0
-			const maxStates = 60_000
-			for len(frontier) > 0 && states < maxStates {
-				hist := frontier[0]
-				frontier = frontier[1:]
-				for _, o := range alpha {
-					next := append(append(make([]op, 0, len(hist)+1), hist...), o)
-					c.Eval()
-					c.Family("bfs-transitions")
-					transitions++
-					res := runHistory(cf, next)
-					if !res.ok {
-						report(c, cf, next, res)
+			var states, transitions int64
+			var frontier [][]op
+			stopped := ""
+			keyer.Reset()
+		search:
+			for {
+				seen := map[string]bool{}
+				first := runHistory(cf, nil)
+				k0, _ := keyer.Key(first.finalKey, first.snap)
+				seen[k0] = true
+				frontier = [][]op{nil}
+				states, transitions = 1, 0
+				const maxStates = 60_000
+				for len(frontier) > 0 {
+					if states >= maxStates {
+						stopped = fmt.Sprintf("BFS state cap %d reached for configuration %s", maxStates, cj)
 
-						continue
+						break search
 					}
 
-					if !seen[res.finalKey] {
-						seen[res.finalKey] = true
-						states++
-						frontier = append(frontier, next)
+					if transitions%512 == 0 && c.OutOfBudget() {
+						stopped = "time budget used up during the BFS of configuration " + string(cj)
+
+						break search
+					}
+
+					hist := frontier[0]
+					frontier = frontier[1:]
+					for _, o := range alpha {
+						next := append(append(make([]op, 0, len(hist)+1), hist...), o)
+						c.Eval()
+						c.Family("bfs-transitions")
+						transitions++
+						res := runHistory(cf, next)
+						if !res.ok {
+							report(c, cf, next, res)
+
+							continue
+						}
+
+						key, restart := keyer.Key(res.finalKey, res.snap)
+						if restart {
+							// A field that never repeats was found: search this
+							// configuration again without it in the keys.
+							keyer.Reset()
+							c.Count("bfs_restarts_after_unbounded_field", 1)
+
+							continue search
+						}
+
+						if !seen[key] {
+							seen[key] = true
+							states++
+							frontier = append(frontier, next)
+						}
 					}
 				}
+
+				break
 			}
 
-			if len(frontier) > 0 {
-				c.NotExhaustive(fmt.Sprintf("BFS state cap %d reached for configuration %s", maxStates, cj))
+			if stopped != "" {
+				c.NotExhaustive(stopped)
+			}
+
+			if d := keyer.Describe(); d != "" {
+				c.Note("%s", d)
 			}
 
 			c.Count("states", states)
